@@ -50,7 +50,7 @@ def kruskal_measure(
         measurement = {"kruskal_measure": kw[0]}
 
         # Excluding features not associated enough
-        active = kw[0] < thresh_kruskal
+        active = kw[0] >= thresh_kruskal
 
     return active, measurement
 
@@ -95,7 +95,7 @@ def R_measure(
         measurement = {"R_measure": r_measure}
 
         # Excluding features not associated enough
-        active = r_measure < thresh_R
+        active = r_measure >= thresh_R
 
     return active, measurement
 
